@@ -620,6 +620,7 @@ func (sc *serverConn) handleStreams() {
 loop:
 	for {
 		releaseHandled()
+		verifGauges(sc, strms, openStreams, len(closedStrms))
 
 		select {
 		case <-sc.closer:
